@@ -86,6 +86,7 @@ class Registry:
         self.inert_methods = set()  # method names dropped whatever the receiver (pbar.update, ...)
         self.identity_calls = set() # inert wrappers that return their first argument (progbar(it))
         self.impure_props = set()   # property names whose getters have effects (hoisted as calls)
+        self.final_fields = set()          # (class, attribute) assigned only by the constructor: a function of the object
         self.opaque_mutable_attrs = set()   # attributes of unmodelled library objects that may be assigned into (logged as events)
         self.pure_ext = set()       # external callables modelled as uninterpreted *functions* of their arguments
         self.no_raise_ext = set()   # pure externals additionally assumed never to raise (listed in the evidence)
